@@ -10,6 +10,8 @@ import re
 from ..engine.program import AnalysisError, dotted, src, walk_no_nested, call_name
 from ..engine import flow
 
+LRC = "src/long_read_counter.py"
+
 
 def stem(name):
     if name is None:
@@ -291,7 +293,44 @@ def f4(prog, ctx):
     ctx.floor("F4", "profile windows", n, 2)
 
 
+def f5(prog, ctx):
+    """The counters' validity predicate distinguishes 'no profile' (None / attribute absent) from 'empty profile' ([] is legitimate:
+    a gene cluster without introns has an empty intron profile)."""
+    f = prog.func(LRC, "ProfileFeatureCounter.is_valid")
+    n = 0
+    for node in walk_no_nested(f):
+        is_ref = (isinstance(node, ast.Attribute) and node.attr.endswith("_gene_profile")) or \
+                 (isinstance(node, ast.Constant) and isinstance(node.value, str) and node.value.endswith("_gene_profile"))
+        if not is_ref:
+            continue
+        # climb to the expression whose truth value is used
+        cur = node
+        while True:
+            par = getattr(cur, "_parent", None)
+            if isinstance(par, (ast.BoolOp, ast.Return, ast.If, ast.IfExp, ast.Assign, ast.While)) or par is None or \
+                    (isinstance(par, ast.UnaryOp) and isinstance(par.op, ast.Not)):
+                break
+            cur = par
+        n += 1
+        ok = False
+        if isinstance(cur, ast.Compare) and len(cur.ops) == 1 and isinstance(cur.ops[0], (ast.Is, ast.IsNot)) \
+                and isinstance(cur.comparators[0], ast.Constant) and cur.comparators[0].value is None:
+            ok = True
+        if isinstance(cur, ast.Call) and call_name(cur) == "hasattr":
+            ok = True
+        if ok:
+            ctx.ok("F5", "%s:%d" % (LRC, cur.lineno), "is_valid tests the profile for presence only: %s" % src(cur)[:70])
+        else:
+            ctx.fail("F5", cur, f._qualname, src(cur)[:90], "the validity test uses the truth value / size of a profile vector (%s): an EMPTY "
+                     "profile is a legitimate value (gene cluster without introns, or without exons of that kind) and such reads would be "
+                     "skipped by both feature counters - rows of isolated mono-exonic genes disappear" % src(cur)[:60])
+    ctx.floor("F5", "profile references in ProfileFeatureCounter.is_valid", n, 2)
+
+
 def run(prog, ctx):
+    ctx.rule("F5", "ProfileFeatureCounter.is_valid refers to the profile vectors only through `is (not) None` and hasattr - never "
+                   "through truthiness or length (an empty profile is valid)")
+    f5(prog, ctx)
     ctx.rule("F4", "the 'spanned' window of the exon profile is (first block end + delta, last block start - delta) and that of the intron "
                    "profile the read's whole span; both are mirror-symmetric under strand reflection")
     ctx.rule("F3", "ProfileFeatureCounter.dump iterates all registered features x all groups and writes a row iff one count is positive; "
